@@ -8,7 +8,9 @@ race detector observing those scenario families (`go build -race -tags verif`). 
 stacks contain a frame of github.com/datastax/cql-proxy; it is keyed by the unordered pair of access sites
 (package.function, not line numbers).  A process abort ("fatal error: concurrent map ...") is a violation too.
 """
+import json
 import os
+import random
 import re
 
 from vlib import core
@@ -72,12 +74,29 @@ def run(ctx):
         ("gates-d8", ["gates", "-scenario", "d8", "-out", ctx.path("r5.ndjson"), "-stats", ctx.path("s5.json")]),
         ("gates-d11", ["gates", "-scenario", "d11", "-out", ctx.path("r6.ndjson"), "-stats", ctx.path("s6.json")]),
     ]
+    # membership changes with query plans in flight: fault sequences of Topology.tla that add, remove and unlist nodes,
+    # applied while concurrent clients keep issuing requests
+    tres = ctx.tlc_must_pass("Topology", "Topology_quick.cfg", workers=4, timeout=900, name="topology")
+    behs = []
+    for line in tres.output.splitlines():
+        if line.startswith('<<"BEH", ') and line.endswith(">>"):
+            behs.append(json.loads(line[len('<<"BEH", '):-2]))
+    behs = sorted(set(behs))
+    random.Random(ctx.seed).shuffle(behs)
+    member = [b for b in behs if sum(1 for st in json.loads(b) if st["a"] in ("add", "remove", "unlist")) >= 2 and '"remove"' in b or '"unlist"' in b]
+    if len(member) < 5:
+        raise core.Inconclusive("too few membership-changing fault sequences exported (%d)" % len(member))
+    tpath = ctx.path("topo_race.jsonl")
+    open(tpath, "w").write("\n".join(member[:int(n(5, 30))]) + "\n")
+    scenarios.append(("topology-hammer", ["topo", "-in", tpath, "-out", ctx.path("topo_race.json"), "-base", "5", "-max", "400", "-budget", "8000", "-hammer", "4"]))
     extra = os.path.join(core.VERIF, "checks", "c18_extra.py")
     reports = 0
     ran = []
     samples = []
     for name, args in scenarios:
-        rc, so, se = ctx.drv(args, race=True, timeout=1500, check=False)
+        # the hook sink takes one mutex at every hook point: that orders all proxy goroutines and hides races from the
+        # detector, so only the gated schedules (which need the hooks to steer the goroutines) run with hooks on
+        rc, so, se = ctx.drv(args, race=True, timeout=1500, check=False, env=None if name.startswith("gates") else {"VERIF_NOHOOKS": "1"})
         races = parse_races(se)
         fatal = parse_fatal(se)
         ran.append({"scenario": name, "rc": rc, "race_reports": len(races), "fatal": bool(fatal)})
